@@ -7,6 +7,7 @@ package self
 import (
 	"strconv"
 	"strings"
+	"time"
 
 	"github.com/pip-services3-gox/pip-services3-expressions-gox/calculator"
 	ctok "github.com/pip-services3-gox/pip-services3-expressions-gox/calculator/tokenizers"
@@ -311,6 +312,24 @@ func H_sym_cut() {
 	if len(s) > 0 {
 		i := strings.IndexByte(s, s[len(s)-1])
 		vAssert(i >= 0 && i < len(s) && s[i] == s[len(s)-1], "indexbyte:finds-a-match")
+	}
+	vDone()
+}
+
+// H_self_time: the time-zone model against the real package time.
+func H_self_time() {
+	offs := []int{0, 3600, -3600, 5*3600 + 1800, -12 * 3600, 14 * 3600, 1, -1}
+	for i, off := range offs {
+		z := time.FixedZone("z", off)
+		for _, h := range []int{0, 1, 11, 12, 22, 23, 25, -3} {
+			d := time.Date(2024, time.February, 29, h, 30, 15, 0, z)
+			tag := "time" + strconv.Itoa(i) + "." + strconv.Itoa(h)
+			vObserve(tag, strconv.FormatInt(d.Unix(), 10)+" wd="+strconv.Itoa(int(d.Weekday()))+" utc="+strconv.Itoa(int(d.UTC().Weekday()))+
+				" in="+strconv.Itoa(int(d.In(time.FixedZone("y", -off)).Weekday()))+" local="+strconv.Itoa(int(d.Local().Weekday())))
+		}
+	}
+	for _, sec := range []int64{0, 1, 86399, 86400, -1, -86400, -86401, 1 << 33, -(1 << 33), 951782400} {
+		vObserve("unix"+strconv.FormatInt(sec, 10), strconv.Itoa(int(time.Unix(sec, 0).Weekday()))+" "+strconv.Itoa(int(time.Unix(sec, 0).In(time.FixedZone("a", 7200)).Weekday())))
 	}
 	vDone()
 }
